@@ -130,7 +130,9 @@ func hsDrawPlan(rt *rapid.T, focus string) *hsPlan {
 	p.maxReadFrame = uint32(vs.Pick(c, 0, 16384, 20000, 1<<20))
 	p.initIW = vs.Pick(c, -1, 0, 1, 100, 5000, 65535, 1<<20)
 	p.initMF = vs.Pick(c, -1, 16384, 16385, 100000, 1<<24-1)
-	if focus == "C08" && vs.Pct(c, 30) {
+	if (focus == "C08" && vs.Pct(c, 30)) || (focus == "C10" && vs.Pct(c, 20)) {
+		// server->client back-pressure: the server's frame writes (responses,
+		// WINDOW_UPDATEs, RST_STREAMs) wait behind a bounded, slowly drained buffer
 		p.bound = vs.Pick(c, 1, 9, 100, 5000, 70000)
 	}
 	maxS := 6
